@@ -29,6 +29,8 @@ def parseK (s : String) : Option (Option Nat) :=
 
 def parseTake (s : String) : Option Take :=
   if s = "all" then some .all
+  else if s = "fold" then some .fold
+  else if s = "count" then some .cnt
   else if s.startsWith "nth:" then (s.drop 4).toNat?.map .nth
   else s.toNat?.map .first
 
